@@ -287,3 +287,42 @@ def freshness(v):
     if 'alias' in ks:
         return 'alias'
     return 'unknown'
+
+
+def embedded_case_consistency(ctx, modules=None, rule='RX-FLAGS'):
+    """
+    Regex A's pattern text is embedded in regex B, B is compiled with
+    IGNORECASE and A - which the code also applies on its own (typically to
+    the text B just matched) - is not: then A must accept every case variant
+    of its own words, or the stand-alone test disagrees with the embedding
+    one.  Decided by language inclusion L(A with I) <= L(A as compiled).
+    """
+    import re as _re
+    from .. import rx, AnalysisError as _AE
+    inv = regex_inventory(ctx)
+    usage = regex_usage(ctx)
+    n = 0
+    for a in inv:
+        if a['rv'].flags & _re.I or len(a['rv'].pattern) < 6:
+            continue
+        if modules is not None and not any(str(a['where']).endswith(m) for m in modules):
+            continue
+        if not usage.get(a['name']) and a.get('kind') == 'module':
+            continue
+        hosts = [b for b in inv if b is not a and a['rv'].pattern in b['rv'].pattern and b['rv'].flags & _re.I]
+        if not hosts:
+            continue
+        n += 1
+        construct = f"{a['name']} (embedded in {', '.join(sorted({b['name'] for b in hosts}))[:80]}) is case-closed"
+        try:
+            w = rx.included(a['rv'].pattern, a['rv'].flags | _re.I, a['rv'].pattern, a['rv'].flags, ascii_only=True)
+        except _AE as e:
+            ctx.undecided(rule, construct, str(e))
+            continue
+        sites = sorted({s[0].split(':')[-1] for s in usage.get(a['name'], [])})
+        ctx.check(w is None, rule, construct,
+                  'accepts every case variant of what it accepts',
+                  f"{a['name']} is compiled without IGNORECASE but embedded in the case-insensitive "
+                  f"{hosts[0]['name']}: {w!r} is matched there and rejected by the stand-alone use in {sites}",
+                  key=f"{rule}|{a['name']}|case-closed", where=a['where'])
+    return n
